@@ -14,7 +14,7 @@ ASSIGNMENT = 'lexer::common::assignment'
 OPT_COMMA = 'lexer::common::optional_comma'
 ROOTS = [COMMENT, LINE_COMMENT, BLOCK_COMMENT, EXT_MARKER, ASSIGNMENT, OPT_COMMA]
 
-ALPHABET = [32, 9, 10, 13, 45, 47, 42, 97]     # ' ' \t \n \r - / * a
+ALPHABET = [32, 9, 10, 13, 45, 47, 42, 97, 34]     # ' ' \t \n \r - / * a "
 MB = 0xE9                                       # 'é' (2 bytes), used as a concrete character
 
 
